@@ -12,11 +12,12 @@ CFGS = {
               ("c04-f", dict(LeafCap=4, FlushSteps="TRUE", CrashAt=FL, NoCrashIn='{"create"}', MaxStmts=4, MaxRows=2, MaxFlush=2, MaxCrash=1, Tables='{"t1"}', Vals="{1}", Ops='{"create", "insert", "update"}'), 15000),
               # a torn flush of existing pages, recovery, more statements, a clean restart
               ("c04-e", dict(FlushSteps="TRUE", CrashAt='{"flush", "idle"}', NoCrashIn='{"create"}', MaxStmts=5, MaxRows=1, MaxFlush=2, MaxCrash=2, Tables='{"t1"}', Vals="{1}", Ops='{"create", "insert", "update"}'), 15000)],
-    "thorough": [("c04-a", dict(FlushSteps="TRUE", CrashAt=FL, MaxStmts=4, MaxRows=3, MaxFlush=1, MaxCrash=1, Tables='{"t1"}'), 80000),
-                 ("c04-b", dict(FlushSteps="TRUE", CrashAt=FL, MaxStmts=4, MaxRows=3, MaxFlush=2, MaxCrash=2, Tables='{"t1"}', Vals="{1}"), 80000),
-                 ("c04-c", dict(FlushSteps="TRUE", CrashAt=FL, MaxStmts=3, MaxRows=2, MaxFlush=1, MaxCrash=1), 60000),
+    "thorough": [("c04-a", dict(EmitMod=12, FlushSteps="TRUE", CrashAt=FL, MaxStmts=3, MaxRows=3, MaxFlush=1, MaxCrash=1, Tables='{"t1"}'), 60000),
+                 ("c04-b", dict(FlushSteps="TRUE", CrashAt=FL, MaxStmts=4, MaxRows=2, MaxFlush=2, MaxCrash=2, Tables='{"t1"}', Vals="{1}"), 40000),
+                 ("c04-c", dict(EmitMod=3, FlushSteps="TRUE", CrashAt=FL, MaxStmts=3, MaxRows=2, MaxFlush=1, MaxCrash=1), 60000),
                  ("c04-d", dict(FlushSteps="TRUE", CrashAt=FL, NoCrashIn='{"create"}', MaxStmts=6, MaxRows=1, MaxFlush=1, MaxCrash=1, Vals="{1}", Ops='{"create", "insert", "update"}'), 60000),
-                 ("c04-e", dict(FlushSteps="TRUE", CrashAt='{"flush", "idle"}', NoCrashIn='{"create"}', MaxStmts=6, MaxRows=2, MaxFlush=2, MaxCrash=2, Tables='{"t1"}', Vals="{1}", Ops='{"create", "insert", "update"}'), 60000)],
+                 ("c04-f", dict(LeafCap=4, FlushSteps="TRUE", CrashAt=FL, NoCrashIn='{"create"}', MaxStmts=5, MaxRows=2, MaxFlush=2, MaxCrash=1, Tables='{"t1"}', Vals="{1}", Ops='{"create", "insert", "update"}'), 40000),
+                 ("c04-e", dict(FlushSteps="TRUE", CrashAt='{"flush", "idle"}', NoCrashIn='{"create"}', MaxStmts=6, MaxRows=1, MaxFlush=2, MaxCrash=2, Tables='{"t1"}', Vals="{1}", Ops='{"create", "insert", "update"}'), 40000)],
 }
 
 
@@ -40,7 +41,7 @@ def run(ctx):
         storelib.random_runs(ctx, pool, cov, [dict(seed=sd, n=(200 if ctx.quick() else 500), caps=([3, 3] if i % 2 == 0 else []), cache=0, pcrash=0.05,
                                                    pflush=0.3, wal=False, maxrows=(5 if i % 2 == 0 else 20)) for i, sd in enumerate(seeds)])
         if not ctx.quick():
-            storelib.design_only(ctx, "big", dict(FlushSteps="TRUE", CrashAt='{"flush", "idle"}', MaxStmts=5, MaxRows=2, MaxFlush=2, MaxCrash=2, Tables='{"t1"}', Vals="{1}"), cov, timeout=600)
+            storelib.design_only(ctx, "big", dict(FlushSteps="TRUE", CrashAt='{"flush", "idle"}', MaxStmts=5, MaxRows=2, MaxFlush=2, MaxCrash=2, Tables='{"t1"}', Vals="{1}"), cov, timeout=300)
     finally:
         pool.close()
     for f in ("crash-flush-idle", "crash-flush-create", "crash-flush-rec", "recover"):
